@@ -146,13 +146,14 @@ func C19(tier string) *evid.Report {
 	r.Assumptions = []string{"the in-place sort of the argument slice is not part of the property"}
 	maxLen, capArr := 5, 4000
 	if tier == "thorough" {
-		maxLen, capArr = 6, 200000
+		maxLen, capArr = 6, 30000
 	}
 	r.Bounds["max_length_all_sequences"] = maxLen
 	r.Bounds["long_multiset_sizes"] = "13..16"
 	r.Bounds["long_multiset_max_arrangements"] = capArr
 	kinds := c19Kinds()
 	canonOut := map[string]string{} // multiset -> output of canonical arrangement
+	nontrivial := 0
 
 	check := func(seq []declKind) {
 		out := c19Call(append([]declKind{}, seq...))
@@ -163,7 +164,11 @@ func C19(tier string) *evid.Report {
 		for _, k := range seq {
 			distinctIDs[k.id] = true
 		}
-		r.State(ss, len(seq) >= 2 && (len(distinctIDs) >= 2 || len(distinctIDs) < len(seq)))
+		// every enumerated sequence is distinct by construction: count instead of storing 10^6..10^7 strings
+		r.StatesN++
+		if len(seq) >= 2 && (len(distinctIDs) >= 2 || len(distinctIDs) < len(seq)) {
+			nontrivial++
+		}
 		r.Outcome(out)
 		if len(r.Samples) < 3 && len(seq) >= 3 {
 			r.Sample(map[string]any{"input": ss, "output": out})
@@ -267,6 +272,7 @@ func C19(tier string) *evid.Report {
 	r.Bounds["long_multisets_fully_permuted"] = longMultisets
 	r.Bounds["long_multisets_above_arrangement_cap_skipped"] = skippedMultisets
 	r.TracesImpl = r.Evaluations
+	r.NontrivialN = nontrivial
 	return r
 }
 
